@@ -238,8 +238,31 @@ pub fn pygen(out_path: &str, tier: Tier, seed: u64) -> i32 {
             }
             sc.problem.tags.push("resolution-fraction-out-of-range".into());
         }
+        // a step that is a whole number of motion-check intervals: every extension is then k
+        // intervals long give or take an ulp, so the number of validity queries per motion
+        // (compared below) reacts to the last bits of the fraction the space really holds
+        let commensurate = !sc.problem.tags.iter().any(|t| t == "resolution-fraction-out-of-range") && r.bool(0.2);
+        if commensurate {
+            let f = *r.pick(&[0.1, 0.3, 0.7, 0.013, 0.05]);
+            for c in sc.problem.spec.comps.iter_mut() {
+                c.frac = Some(f);
+            }
+        }
         if !pythonise(&mut sc) {
             continue;
+        }
+        if commensurate && sc.params.kind != PKind::Prm {
+            let mut lvs = f64::NAN;
+            with_kit!(sc.problem.spec, K, kit => {
+                if let Ok(sp) = kit.build() {
+                    lvs = oxmpl::base::space::StateSpace::get_longest_valid_segment_length(&sp);
+                }
+            });
+            if lvs.is_finite() && lvs > 0.0 {
+                let k = 1 + r.below(8);
+                sc.params.max_distance = k as f64 * (lvs * 0.1);
+                sc.problem.tags.push("step-commensurate-with-resolution".into());
+            }
         }
         if r.bool(0.3) {
             sc.problem.goal.mode = GoalMode::List(vec![sc.problem.goal.centre.clone(), sc.problem.goal.centre.clone()]);
